@@ -7,7 +7,7 @@ package keeper
 // the proposer's vote key followed by the vote keys of the voters at the marked positions < n, ascending.
 //@ smt (define-fun-rec collect ((bits Bytes) (vs Slc_Bytes) (vm (Array Bytes T_relayer_types_Voter)) (pk Bytes) (n Int)) Slc_Bytes
 //@       (ite (<= n 0)
-//@            (mk_Slc_Bytes (store zarr!0 0 pk) 0 1)
+//@            (mk_Slc_Bytes (store zarr!Int_Bytes_bempty 0 pk) 0 1)
 //@            (ite (bitat bits (- n 1))
 //@                 (mk_Slc_Bytes (store (arr_Slc_Bytes (collect bits vs vm pk (- n 1)))
 //@                                      (+ (off_Slc_Bytes (collect bits vs vm pk (- n 1))) (len_Slc_Bytes (collect bits vs vm pk (- n 1))))
@@ -37,4 +37,37 @@ package keeper
 //@ loop 0 invariant members: forall(p, 0, i, bitat(req.GetVote().GetVoters(), p) ==> has(st.relayer.Voters, voters[p]))
 //@ loop 0 decreases len(voters) - i
 //@ loop 1 invariant true
+//@ modifies st.relayer.Relayer
+
+// ---- helpers used by the voted handlers (C02) ---------------------------------
+
+//@ func (Keeper).UpdateRandao
+//@ property C02
+//@ ensures ok: (err == nil) == old(has(st.relayer.Randao))
+//@ ensures chain: err == nil ==> has(st.relayer.Randao) && st.relayer.Randao == sha256(bcat(old(st.relayer.Randao), req.GetVote().GetSignature()))
+//@ ensures fail: err != nil ==> unchanged(st.relayer.Randao)
+//@ modifies st.relayer.Randao
+
+//@ func (Keeper).SetProposalSeq
+//@ property C02
+//@ ensures err == nil && st.relayer.Sequence == seq
+//@ modifies st.relayer.Sequence
+
+//@ func (Keeper).HasPubkey
+//@ property C03 C01
+//@ ensures err == nil && result == has(st.relayer.Pubkeys, raw)
+//@ modifies nothing
+
+//@ func (Keeper).AddNewKey
+//@ property C01
+//@ ensures err == nil && has(st.relayer.Pubkeys, raw) && forall_other_keys_unchanged(mapdom(st.relayer.Pubkeys), old(mapdom(st.relayer.Pubkeys)), raw)
+//@ modifies st.relayer.Pubkeys
+
+//@ smt (define-fun forall_other_keys_unchanged ((a (Array Bytes Bool)) (b (Array Bytes Bool)) (k Bytes)) Bool (= a (store b k true)))
+
+//@ func (Keeper).VerifyNonProposal
+//@ property C03 C05
+//@ ensures proposer: err == nil ==> req.GetProposer() == old(st.relayer.Relayer.Proposer)
+//@ ensures accepted_flag: err == nil ==> st.relayer.Relayer.ProposerAccepted && st.relayer.Relayer.Proposer == old(st.relayer.Relayer.Proposer) && st.relayer.Relayer.Epoch == old(st.relayer.Relayer.Epoch) && st.relayer.Relayer.Voters == old(st.relayer.Relayer.Voters) && st.relayer.Relayer.LastElected == old(st.relayer.Relayer.LastElected)
+//@ ensures reject_changes_nothing: err != nil ==> unchanged(st.relayer.Relayer)
 //@ modifies st.relayer.Relayer
